@@ -657,8 +657,9 @@ Definition graph_init (c : cfg) h g (gi go : list vid) (d : list (option name * 
                                    | Some k => fst (init_setitem c s (hp h) g k (snd kv))
                                    | None => s end) d s2 in
   let h1 := with_ow h s3 in
-  let h2 := reg_values c h1 g gi in
-  let h3 := reg_values c h2 g (map snd (inits (how h2) g)) in
+  (* f54d66f: all explicit names of inputs and initializers are registered first, then the unnamed inputs are named *)
+  let h2 := reg_values c h1 g (filter (fun v => is_some (vname (how h1) v)) (gi ++ map snd (inits (how h1) g))) in
+  let h3 := reg_values c h2 g gi in
   let h4 := fst (g_extend c h3 g ns) in
   with_nm h4 (nm_bump_g (hnm h4) g).
 Definition graph_new (c : cfg) h g (gi go ginit : list vid) (ns : list nid) :=
